@@ -71,6 +71,9 @@ type tmplInfo struct {
 	ID    uint16
 	Specs []elemSpec
 	Sent  bool
+	// other definitions the application tried to announce for this id (op "retmpl")
+	Alt       [][]elemSpec
+	Ambiguous bool // a redefinition was transmitted: the slot is not used any more
 }
 
 type expSession struct {
@@ -442,7 +445,7 @@ func (s *expSession) appGIDInit() { s.appGID = simrt.GoID() }
 // runOps1 executes one op as the application task.
 func (s *expSession) runOps1(i int, op plan.Op) {
 	switch op.K {
-	case "tmpl":
+	case "tmpl", "retmpl":
 		s.opTmpl(i, op)
 	case "data":
 		s.opData(i, op)
@@ -515,8 +518,12 @@ func (s *expSession) noteClosed() {
 
 func (s *expSession) opTmpl(i int, op plan.Op) {
 	slot := int(op.A)
-	if _, dup := s.tmpls[slot]; dup {
-		return // each template id is defined once per session
+	old, dup := s.tmpls[slot]
+	if dup && op.K != "retmpl" {
+		return // each template id is defined once per session (but see "retmpl")
+	}
+	if op.K == "retmpl" && (!dup || !old.Sent || old.Ambiguous) {
+		return
 	}
 	var specs []elemSpec
 	for _, k := range op.N {
@@ -526,6 +533,10 @@ func (s *expSession) opTmpl(i int, op plan.Op) {
 	}
 	if len(specs) == 0 {
 		return
+	}
+	// B > len: the listed elements repeated up to B fields (templates around the message size limit)
+	for k := 0; int64(len(specs)) < op.B && op.B <= 17000; k++ {
+		specs = append(specs, specs[k])
 	}
 	id := uint16(256 + slot)
 	elems := make([]entities.InfoElementWithValue, 0, len(specs))
@@ -546,6 +557,25 @@ func (s *expSession) opTmpl(i int, op plan.Op) {
 	}
 	if err := s.set.AddRecord(elems, id); err != nil {
 		panic(err)
+	}
+	if op.K == "retmpl" {
+		// The id is announced again with another definition. The plans arrange for this send to fail
+		// (oversize, or a transport write error): the definition in force is then still the one that
+		// was transmitted. Should the send succeed, what is "in force" on the exporter's side is not
+		// something the property speaks about: the slot is not used any more.
+		c := callRec{Op: i, Kind: "retmpl", Slot: slot}
+		if 16+s.set.GetSetLength() > 65535 {
+			c.Expect, c.Why = "error", "oversize template"
+		}
+		old.Alt = append(old.Alt, specs)
+		s.send(c)
+		if s.calls[len(s.calls)-1].Err == nil {
+			old.Ambiguous = true
+			s.env.Count("probe.redefinition_succeeded_slot_retired", 1)
+		} else {
+			s.env.Count("fault.failed_template_redefinition", 1)
+		}
+		return
 	}
 	ti := &tmplInfo{ID: id, Specs: specs}
 	s.tmpls[slot] = ti
@@ -625,7 +655,7 @@ func (s *expSession) estimate(op plan.Op) int {
 func (s *expSession) opData1(i int, op plan.Op) {
 	slot := int(op.A)
 	ti := s.tmpls[slot]
-	if ti == nil {
+	if ti == nil || ti.Ambiguous {
 		return
 	}
 	r := rand.New(rand.NewPCG(uint64(op.C), 0xda7a))
@@ -867,6 +897,9 @@ func (s *expSession) checkWire(prop string) {
 	}
 	for i, w := range pw {
 		loc := ""
+		if w.Err != nil && w.Call >= 0 && w.Call < len(s.calls) && s.calls[w.Call].Faulted && s.calls[w.Call].Err != nil {
+			continue // the part of a message the transport took before the injected write error, reported to the caller
+		}
 		if w.Err != nil {
 			s.env.Violate("wire-malformed", loc, "wire message %d (%d bytes, by %s): %v; head=% x", i, len(w.Bytes), w.By, w.Err, head(w.Bytes, 24))
 			continue
@@ -890,7 +923,11 @@ func (s *expSession) checkWire(prop string) {
 				s.env.Violate("wire-template", loc, "wire message %d: template id %d was never defined by the application", i, tr.ID)
 				continue
 			}
-			if !sameFields(tr.Fields, fieldsOf(ti.Specs)) {
+			okFields := sameFields(tr.Fields, fieldsOf(ti.Specs))
+			for _, alt := range ti.Alt {
+				okFields = okFields || sameFields(tr.Fields, fieldsOf(alt))
+			}
+			if !okFields {
 				s.env.Violate("wire-template-fields", loc, "wire message %d: template %d field specifiers %v, application defined %v", i, tr.ID, tr.Fields, fieldsOf(ti.Specs))
 			}
 			// exact length: header + count + specifiers, no padding
@@ -1112,7 +1149,7 @@ func (s *expSession) checkNoInvalid() {
 		switch {
 		case c.Expect == "error" && c.Err == nil:
 			s.env.Violate("invalid-accepted", c.Kind+":"+clauseWord(c.Why), "call %d (%s): %s, but SendSet returned success (%d bytes)", ci, c.Kind, c.Why, c.N)
-		case c.Err != nil && wrote != 0 && !s.isClosedErr(c):
+		case c.Err != nil && wrote != 0 && !s.isClosedErr(c) && !c.Faulted:
 			s.env.Violate("error-but-wrote", c.Kind, "call %d (%s): SendSet returned error %q but %d bytes reached the connection", ci, c.Kind, c.Err, wrote)
 		}
 	}
